@@ -36,6 +36,23 @@ Example copy_then_inplace_accepted : check [copy_then_inplace] [] copy_then_inpl
   /\ writes [copy_then_inplace] [] [] 6 copy_then_inplace = [1000%N].
 Proof. vm_compute. split; reflexivity. Qed.
 
+(* a constructor whose validation works in place on what the caller passed: C(edges) with
+   __init__: self.edges = edges; b = self.edges.flatten().to(dtype=, copy=False); b %= turn.  The new instance is an
+   allocation site (writing its attributes is fine); the write through the two no-op conversions reaches the argument *)
+Definition mutant_ctor_init (copy_false : bool) : fundef :=
+  mkfun 9011 "mutant: C.__init__" [(1, PBlob); (10, PBlob)]%N
+        [SSetField (EVar 1) 10 (EVar 10);
+         SAssign 11 (if copy_false then EMaybe 1 1002 (EMaybe 0 1001 (EField (EVar 1) 10) []) []
+                     else EFresh 1002 [EMaybe 0 1001 (EField (EVar 1) 10) []]);
+         SAug (EVar 11) ENone]%N [0; 1]%N [].
+Definition mutant_ctor (copy_false : bool) : fundef :=
+  mkfun 9010 "mutant: C(edges)" [(10, PBlob)]%N [SReturn (ENew 1000 1 [9011] [(10, EVar 10)])]%N [0; 1]%N [].
+Example mutant_ctor_detected :
+  check [mutant_ctor true; mutant_ctor_init true] [] (mutant_ctor true) = false
+  /\ first_bad [mutant_ctor true; mutant_ctor_init true] [] 6 (mutant_ctor true) = Some [0%N; 1%N]
+  /\ check [mutant_ctor false; mutant_ctor_init false] [] (mutant_ctor false) = true.
+Proof. vm_compute. repeat split; reflexivity. Qed.
+
 Theorem no_arg_write_as_float_type : no_arg_write F_utils_as_float_type.
 Proof. enumerate. Qed.
 Theorem no_arg_write_L1 : no_arg_write F_beamline_L1.
@@ -232,6 +249,62 @@ Proof. enumerate. Qed.
 Theorem no_arg_write_CIF_with_powder_calibration : no_arg_write F_cif_CIF_with_powder_calibration.
 Proof. enumerate. Qed.
 
+(* the chopper family (chopper/disk_chopper.py, chopper/filtering.py, chopper/nexus_chopper.py and
+   tof.chopper_cascade.Chopper.from_disk_chopper).  F_diskchopper_DiskChopper__new_ is the constructor CALL
+   DiskChopper(axle_position=..., ..., slit_begin=..., slit_end=..., ...): a new instance (an allocation site, so
+   writing ITS attributes is not a write of an argument) initialised by the dataclass __init__ and __post_init__;
+   the validation of the slit edges (_check_edges / _check_edge_overlap) runs on the caller's variables. *)
+Theorem no_arg_write_DiskChopper_new : no_arg_write F_diskchopper_DiskChopper__new_.
+Proof. enumerate. Qed.
+Theorem no_arg_write_DiskChopper_from_nexus : no_arg_write F_diskchopper_DiskChopper_from_nexus.
+Proof. enumerate. Qed.
+Theorem no_arg_write_DiskChopper_time_offset_open : no_arg_write F_diskchopper_DiskChopper_time_offset_open.
+Proof. enumerate. Qed.
+Theorem no_arg_write_DiskChopper_time_offset_close : no_arg_write F_diskchopper_DiskChopper_time_offset_close.
+Proof. enumerate. Qed.
+Theorem no_arg_write_DiskChopper_open_duration : no_arg_write F_diskchopper_DiskChopper_open_duration.
+Proof. enumerate. Qed.
+Theorem no_arg_write_DiskChopper_time_offset_angle_at_beam : no_arg_write F_diskchopper_DiskChopper_time_offset_angle_at_beam.
+Proof. enumerate. Qed.
+Theorem no_arg_write_DiskChopper_eq : no_arg_write F_diskchopper_DiskChopper___eq__.
+Proof. enumerate. Qed.
+Theorem no_arg_write_DiskChopper_n_slits : no_arg_write F_diskchopper_DiskChopper_n_slits.
+Proof. enumerate. Qed.
+Theorem no_arg_write_DiskChopper_angular_frequency : no_arg_write F_diskchopper_DiskChopper_angular_frequency.
+Proof. enumerate. Qed.
+Theorem no_arg_write_DiskChopper_is_clockwise : no_arg_write F_diskchopper_DiskChopper_is_clockwise.
+Proof. enumerate. Qed.
+Theorem no_arg_write_DiskChopper__apply_angle_repetitions : no_arg_write F_diskchopper_DiskChopper__apply_angle_repetitions.
+Proof. enumerate. Qed.
+Theorem no_arg_write_DiskChopper__source_phase_factor : no_arg_write F_diskchopper_DiskChopper__source_phase_factor.
+Proof. enumerate. Qed.
+Theorem no_arg_write_disk_chopper__check_edges : no_arg_write F_diskchopper__check_edges.
+Proof. enumerate. Qed.
+Theorem no_arg_write_disk_chopper__check_edge_overlap : no_arg_write F_diskchopper__check_edge_overlap.
+Proof. enumerate. Qed.
+Theorem no_arg_write_disk_chopper__broadcast_slit_height : no_arg_write F_diskchopper__broadcast_slit_height.
+Proof. enumerate. Qed.
+Theorem no_arg_write_disk_chopper__get_edges_from_nexus : no_arg_write F_diskchopper__get_edges_from_nexus.
+Proof. enumerate. Qed.
+Theorem no_arg_write_disk_chopper__get_1d_variable : no_arg_write F_diskchopper__get_1d_variable.
+Proof. enumerate. Qed.
+Theorem no_arg_write_find_plateaus : no_arg_write F_filtering_find_plateaus.
+Proof. enumerate. Qed.
+Theorem no_arg_write_collapse_plateaus : no_arg_write F_filtering_collapse_plateaus.
+Proof. enumerate. Qed.
+Theorem no_arg_write_filter_in_phase : no_arg_write F_filtering_filter_in_phase.
+Proof. enumerate. Qed.
+Theorem no_arg_write_filtering__derive : no_arg_write F_filtering__derive.
+Proof. enumerate. Qed.
+Theorem no_arg_write_filtering__check_total_tolerance : no_arg_write F_filtering__check_total_tolerance.
+Proof. enumerate. Qed.
+Theorem no_arg_write_filtering__next_highest : no_arg_write F_filtering__next_highest.
+Proof. enumerate. Qed.
+Theorem no_arg_write_extract_chopper_from_nexus : no_arg_write F_nexuschopper_extract_chopper_from_nexus.
+Proof. enumerate. Qed.
+Theorem no_arg_write_Chopper_from_disk_chopper : no_arg_write F_cascade_Chopper_from_disk_chopper.
+Proof. enumerate. Qed.
+
 (* the two documented in-place effects are real (the exemption is not vacuous): some configuration writes
    the exempted parameter *)
 Example drop_due_to_gravity_consumes_distance : writes_allowed PROG LOOPSITES F_beamline__drop_due_to_gravity = true.
@@ -341,7 +414,32 @@ Definition ANALYSED : list fundef := [F_utils_as_float_type;
   F_cif_CIF_with_authors;
   F_cif_CIF_with_beamline;
   F_cif_CIF_with_reduced_powder_data;
-  F_cif_CIF_with_powder_calibration].
+  F_cif_CIF_with_powder_calibration;
+  F_diskchopper_DiskChopper__new_;
+  F_diskchopper_DiskChopper_from_nexus;
+  F_diskchopper_DiskChopper_time_offset_open;
+  F_diskchopper_DiskChopper_time_offset_close;
+  F_diskchopper_DiskChopper_open_duration;
+  F_diskchopper_DiskChopper_time_offset_angle_at_beam;
+  F_diskchopper_DiskChopper___eq__;
+  F_diskchopper_DiskChopper_n_slits;
+  F_diskchopper_DiskChopper_angular_frequency;
+  F_diskchopper_DiskChopper_is_clockwise;
+  F_diskchopper_DiskChopper__apply_angle_repetitions;
+  F_diskchopper_DiskChopper__source_phase_factor;
+  F_diskchopper__check_edges;
+  F_diskchopper__check_edge_overlap;
+  F_diskchopper__broadcast_slit_height;
+  F_diskchopper__get_edges_from_nexus;
+  F_diskchopper__get_1d_variable;
+  F_filtering_find_plateaus;
+  F_filtering_collapse_plateaus;
+  F_filtering_filter_in_phase;
+  F_filtering__derive;
+  F_filtering__check_total_tolerance;
+  F_filtering__next_highest;
+  F_nexuschopper_extract_chopper_from_nexus;
+  F_cascade_Chopper_from_disk_chopper].
 Theorem all_analysed_no_arg_write : Forall no_arg_write ANALYSED.
 Proof.
   exact (Forall_cons _ no_arg_write_as_float_type
@@ -441,6 +539,31 @@ Proof.
   (Forall_cons _ no_arg_write_CIF_with_beamline
   (Forall_cons _ no_arg_write_CIF_with_reduced_powder_data
   (Forall_cons _ no_arg_write_CIF_with_powder_calibration
-  (Forall_nil _)))))))))))))))))))))))))))))))))))))))))))))))))))))))))))))))))))))))))))))))))))))))))))))))))).
+  (Forall_cons _ no_arg_write_DiskChopper_new
+  (Forall_cons _ no_arg_write_DiskChopper_from_nexus
+  (Forall_cons _ no_arg_write_DiskChopper_time_offset_open
+  (Forall_cons _ no_arg_write_DiskChopper_time_offset_close
+  (Forall_cons _ no_arg_write_DiskChopper_open_duration
+  (Forall_cons _ no_arg_write_DiskChopper_time_offset_angle_at_beam
+  (Forall_cons _ no_arg_write_DiskChopper_eq
+  (Forall_cons _ no_arg_write_DiskChopper_n_slits
+  (Forall_cons _ no_arg_write_DiskChopper_angular_frequency
+  (Forall_cons _ no_arg_write_DiskChopper_is_clockwise
+  (Forall_cons _ no_arg_write_DiskChopper__apply_angle_repetitions
+  (Forall_cons _ no_arg_write_DiskChopper__source_phase_factor
+  (Forall_cons _ no_arg_write_disk_chopper__check_edges
+  (Forall_cons _ no_arg_write_disk_chopper__check_edge_overlap
+  (Forall_cons _ no_arg_write_disk_chopper__broadcast_slit_height
+  (Forall_cons _ no_arg_write_disk_chopper__get_edges_from_nexus
+  (Forall_cons _ no_arg_write_disk_chopper__get_1d_variable
+  (Forall_cons _ no_arg_write_find_plateaus
+  (Forall_cons _ no_arg_write_collapse_plateaus
+  (Forall_cons _ no_arg_write_filter_in_phase
+  (Forall_cons _ no_arg_write_filtering__derive
+  (Forall_cons _ no_arg_write_filtering__check_total_tolerance
+  (Forall_cons _ no_arg_write_filtering__next_highest
+  (Forall_cons _ no_arg_write_extract_chopper_from_nexus
+  (Forall_cons _ no_arg_write_Chopper_from_disk_chopper
+  (Forall_nil _))))))))))))))))))))))))))))))))))))))))))))))))))))))))))))))))))))))))))))))))))))))))))))))))))))))))))))))))))))))))))).
 Qed.
 
